@@ -328,7 +328,7 @@ def g_lin(draw):
 
     F = gen.integer(draw, 2, 4)
     K = gen.integer(draw, 1, 4)
-    sizes = [gen.integer(draw, 2, 6) for _ in range(K)]
+    sizes = [gen.integer(draw, 1, 6) for _ in range(K)]  # a class may hold a single sample
     while sum(s - 1 for s in sizes) < F + 1:
         sizes[gen.integer(draw, 0, K - 1)] += 1
     n = sum(sizes)
